@@ -715,6 +715,29 @@ def enum_cases(maxlen, rng):
     return out
 
 
+def both_match_cases():
+    """lines that match the ignore expression AND the line format (commented-out entries under a liberal format):
+    the ignore expression wins, whatever the other options are (deterministic, every seed)"""
+    f = FORMATS["loose"]
+    contents = ["#s9 10.0.0.9\ns1 aa\n# s1 zz\ns2 aa x\n", "s1 aa\n#s1 bb\n#s2 aa\n", "//s3 aa\n#s1 aa\ns1 cc\n",
+                "#s1 aa\n", "s2 bb\n#x aa\n"]
+    out = []
+    for cache in (True, False):
+        for dup, mis, ff in (("error", "error", False), ("warn", "warn", True), ("ignore", "ignore", False)):
+            cfg = {"mismatch": mis, "duplicate": dup, "find_first": ff, "cache": cache,
+                   "sys_id": {"source": "id", "chain": [], "tnv": False, "unv": False},
+                   "vars": [["a", {"source": "a", "chain": [], "tnv": False, "unv": False}]]}
+            for ign in (r"#.*", r"\s*|#.*|//.*", r"[#/].*"):
+                for k, c in enumerate(contents):
+                    steps = [["get", "s1"], ["get", "#s9"], ["get", "#s1"], ["get", "#"], ["find", "a", "aa"],
+                             ["find", "a", "10.0.0.9"], ["get", "s2"], ["get", "#x"], ["get", "//s3"],
+                             ["write", {"content": contents[(k + 1) % len(contents)]}],
+                             ["get", "s1"], ["find", "a", "aa"], ["get", "#s1"], ["get", "#s2"], ["get", "#x"]]
+                    out.append({"regex": f["regex"], "ignore": ign, "cfg": cfg, "init": {"content": c}, "steps": steps,
+                                "_meta": {"style": "both-match", "fmt": "loose", "use_defaults": False}})
+    return out
+
+
 # --------------------------------------------------------------------------- shrinking
 def _with(case, **kw):
     d = dict(case)
